@@ -847,4 +847,176 @@ def namesAvoid (nm : String) : List Step → Bool
 theorem exCfg_clean : exCfg.clean := by
   simp [Cfg.clean, exCfg, Rail.clean, exBody, LogEv.isStartOrFin]
 
+
+/-! ### `compute_generation_log` returns on the log a turn writes -/
+
+/-- the literal tables of the current `compute_generation_log` -/
+abbrev Kg : Consts :=
+  { ignoredActions := Generated.C16.ignoredActions, ignoredFlows := Generated.C16.ignoredFlows,
+    generationFlows := Generated.C16.generationFlows, relabelName := Generated.C16.relabelName,
+    relabelTask := Generated.C16.relabelTask }
+
+/-- from "`activated_rail` set: `c`, no action running" the segment is accepted and ends in "`c'`, no action running" -/
+def Seg (c : Bool) (L : List LogEv) (c' : Bool) : Prop := accepts Kg (c, false) L = some (c', false)
+
+theorem Seg.append {c c1 c2 : Bool} {a b : List LogEv} (h1 : Seg c a c1) (h2 : Seg c1 b c2) : Seg c (a ++ b) c2 := by
+  unfold Seg at *
+  rw [accepts_append, h1]; exact h2
+
+theorem Seg.nil (c : Bool) : Seg c [] c := rfl
+
+/-- the rail's own log entries are accepted inside an open rail and leave no action running
+    (e.g. `step`, `StartInternalSystemAction x`, optional `llm_call_info`s, `InternalSystemActionFinished x`) -/
+def Rail.accepted (r : Rail) : Prop := Seg true r.noise true
+
+def Cfg.accepted (cfg : Cfg) : Prop :=
+  (∀ r ∈ cfg.input, r.accepted) ∧ (∀ r ∈ cfg.output, r.accepted) ∧ (∀ r ∈ cfg.retrieval, r.accepted)
+
+theorem runRails_seg (c : Cat) (ty : RailType) (hc : catType c = some ty) : ∀ (rs : List Rail) (i : Nat) (t : String) (c0 : Bool),
+    (∀ r ∈ rs, r.accepted) →
+    (match (runRails c i rs t).2.2 with
+      | .passed _ => Seg c0 (runRails c i rs t).2.1 (if rs.isEmpty then c0 else false)
+      | _ => Seg c0 (runRails c i rs t).2.1 true)
+  | [], _, _, c0, _ => by simp [runRails, Seg.nil]
+  | r :: rs, i, t, c0, hacc => by
+    have hr : Seg true r.noise true := hacc r (List.mem_cons_self ..)
+    have hrest : ∀ r' ∈ rs, r'.accepted := fun r' h' => hacc r' (List.mem_cons_of_mem _ h')
+    have hstart : Seg c0 (startEv c r.name) true := by
+      cases c <;> simp_all [catType, startEv, Seg, accepts, accStep]
+    have hfin : Seg true (finEv c) false := by
+      cases c <;> simp_all [catType, finEv, Seg, accepts, accStep]
+    simp only [runRails]
+    cases hv : r.verdict t with
+    | accept =>
+      have ih := runRails_seg c ty hc rs (i + 1) t false hrest
+      simp only [List.isEmpty_cons]
+      cases ho : (runRails c (i + 1) rs t).2.2 <;> rw [ho] at ih <;> simp only [] at ih ⊢
+      · exact ((hstart.append hr).append hfin).append (by simpa using ih)
+      · exact ((hstart.append hr).append hfin).append ih
+      · exact ((hstart.append hr).append hfin).append ih
+    | rewrite t' =>
+      have ih := runRails_seg c ty hc rs (i + 1) t' false hrest
+      simp only [List.isEmpty_cons]
+      cases ho : (runRails c (i + 1) rs t').2.2 <;> rw [ho] at ih <;> simp only [] at ih ⊢
+      · exact ((hstart.append hr).append hfin).append (by simpa using ih)
+      · exact ((hstart.append hr).append hfin).append ih
+      · exact ((hstart.append hr).append hfin).append ih
+    | reject => exact hstart.append hr
+    | fault => exact hstart.append hr
+
+theorem runRetrieval_seg : ∀ (rs : List Rail) (i : Nat), (∀ r ∈ rs, r.accepted) → Seg true (runRetrieval i rs).2 true
+  | [], _, _ => rfl
+  | r :: rs, i, h => by
+    simp only [runRetrieval]
+    exact (h r (List.mem_cons_self ..)).append (runRetrieval_seg rs (i + 1) (fun r' h' => h r' (List.mem_cons_of_mem _ h')))
+
+theorem retrievalPartR_seg (cfg : Cfg) (ha : cfg.accepted) (opts : Option Opts) : Seg true (retrievalPartR cfg opts).2 true := by
+  unfold retrievalPartR
+  split
+  · exact runRetrieval_seg _ _ ha.2.2
+  · rfl
+
+theorem botIntentSegR_seg (cfg : Cfg) (ha : cfg.accepted) (opts : Option Opts) (p : Bool) : Seg true (botIntentSegR cfg opts p).2 true := by
+  simp only [botIntentSegR, List.append_assoc]
+  refine Seg.append (c1 := true) ?_ (Seg.append (retrievalPartR_seg cfg ha opts) ?_)
+  · unfold Seg; decide
+  · cases p <;> (unfold Seg; decide)
+
+theorem blockedTailR_seg (cfg : Cfg) (ha : cfg.accepted) (opts : Option Opts) (c : Cat) (n : String) :
+    Seg true (blockedTailR cfg opts c n).log true := by
+  unfold blockedTailR
+  split
+  · rfl
+  · show Seg true ([LogEv.step n [.intent "refuse to respond"]] ++ (botIntentSegR cfg opts true).2) true
+    exact Seg.append (c1 := true) (by simp [Seg, accepts, accStep]) (botIntentSegR_seg cfg ha opts true)
+
+/-- the log of this part is accepted whatever `activated_rail` is when it starts -/
+def SegAny (L : List LogEv) : Prop := ∀ c, ∃ c', Seg c L c'
+
+theorem SegAny.prepend {a b : List LogEv} (ha : ∀ c, ∃ c', Seg c a c') (hb : SegAny b) : SegAny (a ++ b) := by
+  intro c
+  obtain ⟨c1, h1⟩ := ha c
+  obtain ⟨c2, h2⟩ := hb c1
+  exact ⟨c2, h1.append h2⟩
+
+theorem outputPhaseR_seg (cfg : Cfg) (ha : cfg.accepted) (opts : Option Opts) (bm : String) : SegAny (outputPhaseR cfg opts bm).log := by
+  intro c0
+  unfold outputPhaseR
+  have hl := runRails_seg .output .output rfl cfg.output 0 bm c0 ha.2.1
+  rcases hr : runRails .output 0 cfg.output bm with ⟨tr, lg, oc⟩
+  rw [hr] at hl
+  cases oc with
+  | passed t => exact ⟨_, hl⟩
+  | blocked n => exact ⟨true, by simpa [Out.prepend] using Seg.append hl (blockedTailR_seg cfg ha opts .output n)⟩
+  | faulted n => exact ⟨true, hl⟩
+
+theorem processBotMessageR_seg (cfg : Cfg) (ha : cfg.accepted) (opts : Option Opts) (sk : Bool) (bm : String) :
+    SegAny (processBotMessageR cfg opts sk bm).log := by
+  unfold processBotMessageR
+  split
+  · exact fun c => ⟨c, rfl⟩
+  · split
+    · exact outputPhaseR_seg cfg ha opts bm
+    · exact fun c => ⟨c, rfl⟩
+
+theorem guiSeg_seg (task : String) (c : Bool) : Seg c (guiSeg task) true := by
+  cases c <;> simp [Seg, guiSeg, accepts, accStep, guiFlow, Kg, Generated.C16.ignoredFlows, Generated.C16.ignoredActions]
+
+theorem afterInputR_seg (cfg : Cfg) (ha : cfg.accepted) (opts : Option Opts) (um : String) (bot : Option String) (dlg : Dialog) :
+    SegAny (afterInputR cfg opts um bot dlg).log := by
+  unfold afterInputR
+  split
+  · split
+    · exact fun c => ⟨c, rfl⟩
+    · cases bot with
+      | none => exact fun c => ⟨c, rfl⟩
+      | some b => exact processBotMessageR_seg cfg ha opts false b
+  · cases dlg with
+    | general text =>
+      exact SegAny.prepend (fun c => ⟨true, guiSeg_seg "general" c⟩) (processBotMessageR_seg cfg ha opts false text)
+    | intent flow bi p text =>
+      refine SegAny.prepend (fun c => ⟨true, ?_⟩) (processBotMessageR_seg cfg ha opts p text)
+      refine Seg.append (Seg.append (c1 := true) (guiSeg_seg _ c) (c2 := true) ?_) (botIntentSegR_seg cfg ha opts p)
+      simp [Seg, accepts, accStep]
+
+theorem turnCoreR_seg (cfg : Cfg) (ha : cfg.accepted) (opts : Option Opts) (user : String) (bot : Option String) (dlg : Dialog) :
+    ∃ c', Seg false (turnCoreR cfg opts user bot dlg).log c' := by
+  unfold turnCoreR
+  have hl := runRails_seg .input .input rfl cfg.input 0 user false ha.1
+  split
+  all_goals rename_i tr1 lg1 x heq
+  · have hb : Seg false lg1 true := by
+      split at heq
+      · rw [heq] at hl; exact hl
+      · cases heq
+    exact ⟨true, by simpa [Out.prepend] using hb.append (blockedTailR_seg cfg ha opts .input x)⟩
+  · have hb : Seg false lg1 true := by
+      split at heq
+      · rw [heq] at hl; exact hl
+      · cases heq
+    exact ⟨true, hb⟩
+  · have hb : ∃ c1, Seg false lg1 c1 := by
+      split at heq
+      · rw [heq] at hl; exact ⟨_, hl⟩
+      · cases heq; exact ⟨false, rfl⟩
+    obtain ⟨c1, h1⟩ := hb
+    obtain ⟨c2, h2⟩ := afterInputR_seg cfg ha opts x bot dlg c1
+    exact ⟨c2, by simpa [Out.prepend] using h1.append h2⟩
+
+/-- **`compute_generation_log` returns on every log a turn writes** (rails whose own entries are accepted). -/
+theorem turn_log_accepted (cfg : Cfg) (ha : cfg.accepted) (opts : Option Opts) (user : String) (bot : Option String) (dlg : Dialog)
+    (out : Out) (h : turn Gd cfg opts user bot dlg = some out) : ∃ gl, compute Kg out.log = .ok gl := by
+  rw [turn_eq] at h; cases h
+  obtain ⟨c', hs⟩ := turnCoreR_seg cfg ha opts user bot dlg
+  apply compute_of_accepts Kg _ (by simp) (c', false)
+  show accepts Kg (false, false) ([LogEv.other] ++ ((turnCoreR cfg opts user bot dlg).log ++ [LogEv.other])) = some (c', false)
+  exact Seg.append (c1 := false) rfl (Seg.append hs rfl)
+
+
+theorem exCfg_accepted : exCfg.accepted := by
+  refine ⟨?_, ?_, ?_⟩ <;> intro r hr <;> simp [exCfg] at hr
+  · rcases hr with rfl | rfl <;> (unfold Rail.accepted Seg; decide)
+  · subst hr; unfold Rail.accepted Seg; decide
+  · subst hr; unfold Rail.accepted Seg; decide
+
 end NemoVerif.PipelineOpts
